@@ -17,6 +17,10 @@ def sel(T):
     if T.kind in ('seek', 'create-snapshot'):
         # a seek revives with fresh *retention* (message_ttl), not the subscription's expiration ttl
         return [O.resolves_only_live] + ([O.c13_seek_time] if T.name in ('seek-to-time', 'grpc:Seek(time)') else []) + ([O.c13_seek_snapshot] if T.name in ('seek-to-snapshot', 'grpc:Seek(snapshot)') else [])
+    if T.kind == 'prune' and getattr(T, 'job', '') in ('prune_expired_deliveries', 'prune_completed_deliveries', 'prune_completed_messages'):
+        # the retention sweeps: nothing is removed before its retention (or the age threshold) has run out
+        return [lambda ex, S, T_: [x for x in O.c15_prune(ex, S, T_) if x[0].split('[')[0] in
+                                   ('only-dead-deliveries-removed', 'age-threshold-respected', 'only-undelivered-old-messages-removed')]]
     return []
 
 
